@@ -24,4 +24,14 @@ PROPS = {
                                      "archive/tar and klauspost zip codecs are library parameters (round trip exercised, not proved)"],
         "assumptions": ["strings are valid UTF-8", "ExternalPath/LocalPath bookkeeping is not compared", "copying a bucket onto itself is excluded"],
     },
+    "C15": {
+        "harness": "c15", "protocol": "c15", "level": "proof", "stateful": True,
+        "extra_cmds": ["c15facts"],
+        "gen": [{"cmd": ["c15facts"], "out": "BufGen/AstFacts.lean"}],
+        "rule": "Part A: for each generated operation (PutPath, CopyReader, CopyPath, Copy with parallelism 1/4/16 and atomic on/off, Untar, Unzip; memory or disk destination; small, empty and multi-chunk contents; hostile archive names) a fault-free traced run, then one run per primitive of the trace (Put / i-th Write / Close of each object) with that primitive failing, plus all pairs (bounded at 120 per op; unbounded in thorough for short traces). Breadth (oracle only): Tar/Zip into an io.Writer failing at each write, buf.yaml/buf.lock writers, ForWriteObject, CopyReadObject at each primitive. Part B: atomic puts on disk: a child process SIGKILLs itself after each step (before put, after temp creation, after each write, before rename, after rename) for generated old/new contents and paths; rename onto a non-empty directory. Every line is non-trivial (a fault or a kill point); distinct = distinct protocol lines.",
+        "trusted_base": COMMON_TB + ["go/ast fact extractor harness/cmd/c15facts (defer/errors.Join shapes of 8 storage helpers -> lean/BufGen/AstFacts.lean, regenerated every run)",
+                                     "fault-injecting WriteBucket wrapper in the harness (its semantics are the ones stated in BufModel/Faults.lean)",
+                                     "OS rename(2) atomicity and page-cache visibility after SIGKILL are assumed, exercised by the kill campaign"],
+        "assumptions": ["no fsync: power-loss durability is out of scope (neither code nor model syncs)", "faults are injected at the storage.WriteBucket interface, not inside the kernel"],
+    },
 }
